@@ -29,8 +29,8 @@ class ConclusionSelector(LogicalBinaryOperator, ABC):
     they are not duplicated across truth branches.
     """
 
-    concluded_before: Dict[bool, SeenSet] = field(
-        default_factory=lambda: {True: SeenSet(), False: SeenSet()}, init=False
+    concluded_before: Dict[typing.Tuple[bool, frozenset], SeenSet] = field(
+        default_factory=dict, init=False
     )
 
     def update_conclusion(
@@ -53,9 +53,14 @@ class ConclusionSelector(LogicalBinaryOperator, ABC):
             k: v for k, v in output.bindings.items() if k in required_vars
         }
 
-        if not self.concluded_before[not self._is_false_].check(required_output):
+        # one coverage index per truth branch AND per set of conclusions: a binding for which one branch
+        # concluded may still trigger the conclusions of another branch (next_rule)
+        seen = self.concluded_before.setdefault(
+            (not self._is_false_, frozenset(conclusions)), SeenSet()
+        )
+        if not seen.check(required_output):
             self._conclusion_.update(conclusions)
-            self.concluded_before[not self._is_false_].add(required_output)
+            seen.add(required_output)
 
     @property
     def _plot_color_(self) -> ColorLegend:
